@@ -460,7 +460,17 @@ def check_controller(case, ctx: Ctx):
                         fh.write("True\n" if it < K else "False\n")
                 return t
 
-        drv = rtdriver.Driver(run.exp, PatternChooser("fifo"), {}, max_decisions=60000, max_items=400000)
+        from ..core import jhash
+        order = []
+        mode = jhash(["c05-controller", case]) % 3
+        # mode 1: whenever a condition instance reports that it finished, a scheduler pass of the stage loop wins the
+        # controller's lock first; mode 2: the controller learns about the first condition instance one pass late
+        is_cond = lambda ref: "#" in ref and ref.split("#", 1)[1] == cond_name
+        cond_stage = case["S"] + case["loop"][case["cond"]["c"]]["ls"]
+        drv = rtdriver.Driver(run.exp, PatternChooser("fifo"), {}, max_decisions=60000, max_items=400000,
+                              on_component_run=lambda d, ref, cs: order.append(ref),
+                              pass_at_lock=is_cond if mode == 1 else None,
+                              delay_finished={"stage%d.0#%s" % (cond_stage, cond_name): 1} if mode == 2 else None)
         drv.backend = Backend({})
         res = drv.run()
         if res.aborted:
@@ -473,10 +483,23 @@ def check_controller(case, ctx: Ctx):
         if bad:
             raise Violation("controller-run-of-loop-failed", "K=%d outcomes=%s launch log=%s errors=%s" % (
                 K, res.stage_outcomes, res.launch_log[-12:], res.kernel_errors[:2]))
+        # a component outside the loop that consumes a looped component starts only when the loop is over, i.e. after
+        # the condition instance of the last iteration was started (and, being its consumer, finished)
+        last_cond = "stage%d.%d#%s" % (cond_stage, K, cond_name)
+        if last_cond not in order:
+            raise Violation("controller-run-of-loop-incomplete", "K=%d: %s was never started; started: %s" % (
+                K, last_cond, order))
+        end = order.index(last_cond)
+        for c in case["cons"]:
+            prefix = "stage%d.%s" % (c["stage"], c["name"])
+            early = [r for r in order[:end] if r == prefix or (r.startswith(prefix) and r[len(prefix):].isdigit())]
+            if early:
+                raise Violation("outside-consumer-started-before-loop-ended",
+                                "K=%d mode=%d: %s started before %s; order of starts: %s" % (K, mode, early, last_cond, order))
         lp.k = K
         run.wg = run.exp.experimentGraph
         run.check()
-        ctx.rec.label("controller:K=%d" % K)
+        ctx.rec.label("controller:K=%d" % K, "controller:mode=%s" % ["plain", "pass-at-lock", "late-condition"][mode])
         ctx.rec.nt(["controller", _shape_key(case), K], {"K": K, "S": case["S"],
                                                           "loop": [(c["name"], c["ls"]) for c in case["loop"]],
                                                           "launches": len(res.launch_log)}, group="controller")
